@@ -19,9 +19,13 @@ P = {
   "The three projective formulas are validated against the Renes-Costello-Batina closed forms as polynomial identities in symbolic coordinates (all inputs, all representatives); doubling reference tied to the addition reference modulo the curve equation; alias patterns; exported operations reduce to the formulas with the validity flag propagated; Equal = two cross-product tests; every coordinate leaving the package comes from rescale().",
   "Trusted: RCB15 completeness theorem for prime-order curves, C01 (field operations exact), go/ssa, the checker.",
   "abstract interpretation over go/ssa; polynomial normal-form comparison with reference formulas"),
+ "C19": ("translation_validation",
+  "The SSE2 lookup routines are validated against their portable twins for every index 0..15 and every table content: the assembly is parsed and abstractly interpreted (loop unrolled by constant propagation, XMM lanes symbolic), each stored lane must be the table limb / identity constant the Go reference (abstractly interpreted on a fully symbolic table) stores, under the gc/amd64 layout from go/types; store footprint inside the coordinate bytes; idx never reaches an address or branch; the build-constraint surface of the module is exactly the stub/assembly/reference triple with identical declaration sets in every configuration; all call sites pass 4-bit windows.",
+  "Trusted: Go assembler semantics of the mnemonics used (tabled in internal/asmx), go/types.SizesFor(gc, amd64), go/ssa, the checker. Not decided: agreement of the avo generator (separate module internal/asm) with the checked-in .s file.",
+  "abstract interpretation of Go assembly + abstract interpretation of the Go twin over go/ssa; lane-by-lane comparison"),
 }
 
-CLAIMED = ["C01", "C02", "C03"]
+CLAIMED = ["C01", "C02", "C03", "C19"]
 
 REASON_PENDING = "check under construction in this session (see DESIGN.md section 2); not yet claimed"
 
